@@ -35,7 +35,7 @@ ASSUMPTIONS = ['expected function = real dense-time offline monitor on the whole
                'envelope rules exclude the regions of the open known findings']
 REAL = common.REAL_ALL
 STUBS = common.STUBS_ALL
-PROBES = ['sensors_start_at_different_instants', 'cut_at_window_edge', 'empty_batch', 'pastified', 'skewed_schedule', 'one_sample_batches', 'schedules_enumerated_exhaustively',
+PROBES = ['interface_aware_semantics', 'sensors_start_at_different_instants', 'cut_at_window_edge', 'empty_batch', 'pastified', 'skewed_schedule', 'one_sample_batches', 'schedules_enumerated_exhaustively',
           'epoch_time_stamps', 'nano_scale_values', 'one_sensor_1000_samples_ahead']
 INTERLEAVING_MEASURE = 'distinct chunking patterns (per variable: tuple of batch sizes per update)'
 ENVELOPE_RULES = ['memory-past-above-delayed (F08), narrowed: only a past operator with UNBOUNDED memory (once, historically, since) above a sub-formula with horizon > 0 is excluded; with bounded memory m (prev/s_prev/rise/fall: 1, bounded operators: their upper bound, summed along nesting) the comparison starts m updates after the horizon (common.warmup_extra)',
@@ -124,8 +124,12 @@ def _gen(rng, tier):
             sched[v] = [rs.count(k) for k in range(rounds)]
         skew.append(sched)
     sync_seed = [sorted(rng.sample(range(1, 64), rng.randint(0, 6))) for _ in range(300)]
-    return {'vars': vars_, 'ast': ast, 'text': text, 'signals': signals, 'pastify': pastify, 'skew': skew,
-            'sync_picks': sync_seed, 'tier': tier}
+    sc = {'vars': vars_, 'ast': ast, 'text': text, 'signals': signals, 'pastify': pastify, 'skew': skew,
+          'sync_picks': sync_seed, 'tier': tier}
+    ia = common.draw_iastl(rng, vars_, ast, p=0.2)
+    if ia:
+        sc['iastl'] = ia       # offline and online monitor alike run under an interface-aware semantics (combined class)
+    return sc
 
 
 def _instants(signals, vars_):
@@ -215,13 +219,17 @@ def run(sc):
     # F08 region with bounded memory: the offline comparison starts once the warm-up left every operator's memory
     wx = (common.warmup_extra(ast) * common.DENSE_TICK) if sc.get('pastify') else 0
     try:
-        ref = D.eval_dense(ast, dict((v, signals[v]) for v in used))
+        ref = D.eval_dense(ast, dict((v, signals[v]) for v in used), pred_hook=(common.iastl_hook(sc['iastl']) if sc.get('iastl') else None))
     except RefError:
         r.discarded = True
         return r
     text = sc.get('text') or common.dense_text(ast)
     off_desc = {'cls': 'ct_off', 'vars': common.var_decls(vars_), 'spec': text}
     on_desc = {'cls': 'ct_on', 'vars': common.var_decls(vars_), 'spec': text, 'pastify': bool(sc.get('pastify'))}
+    if sc.get('iastl'):
+        for d_ in (off_desc, on_desc):
+            d_.update(cls='ct', semantics=sc['iastl']['sem'], io=dict(sc['iastl']['io']))
+        r.probes['interface_aware_semantics'] += 1
     try:
         off = M.ct_evaluate(M.build(off_desc), signals, vars_)
         r.api_calls += 3
